@@ -100,13 +100,14 @@ type Contracts struct {
 	Ghosts map[string]string // name -> sort spec
 	LocalGhost map[string]bool
 	Defines    map[string]string
+	ChanInv    map[string][]Clause // channel type -> invariant over (ch, elem)
 	Axioms []Clause
 	Lemmas []*Lemma
 	Sources []string
 }
 
 func newContracts() *Contracts {
-	return &Contracts{Preds: map[string]*PredDef{}, Funcs: map[string]*FuncContract{}, Types: map[string]*TypeContract{}, Specs: map[string]*SpecFun{}, Ghosts: map[string]string{}, LocalGhost: map[string]bool{}, Defines: map[string]string{}}
+	return &Contracts{Preds: map[string]*PredDef{}, Funcs: map[string]*FuncContract{}, Types: map[string]*TypeContract{}, Specs: map[string]*SpecFun{}, Ghosts: map[string]string{}, LocalGhost: map[string]bool{}, Defines: map[string]string{}, ChanInv: map[string][]Clause{}}
 }
 
 var tagRe = regexp.MustCompile(`\s*\[(C\d{2,3}(?:\.[A-Za-z0-9_\-']+)?|nospawn|trusted|internal)\]\s*$`)
@@ -254,6 +255,18 @@ func (cs *Contracts) LoadFile(path string, goFile bool) error {
 				return fmt.Errorf("%s:%d: %v", path, ln.no, err)
 			}
 			cs.Preds[m[1]] = &PredDef{Params: ps, Body: body}
+			continue
+		case word == "chaninv":
+			// chaninv <channel type>: expr over ch, elem
+			i := strings.Index(rest, ":")
+			if i < 0 {
+				return fmt.Errorf("%s:%d: bad chaninv (chaninv <chan type>: expr)", path, ln.no)
+			}
+			c, err := mk(rest[i+1:], ln.no)
+			if err != nil {
+				return err
+			}
+			cs.ChanInv[strings.TrimSpace(rest[:i])] = append(cs.ChanInv[strings.TrimSpace(rest[:i])], c)
 			continue
 		case word == "ghost":
 			i := strings.Index(rest, ":")
